@@ -47,7 +47,7 @@ with `batch.PreviousOutputs`. -/
 theorem C05_signer_source_shape :
     htP2wsh = 1 ∧ htTaproot = 0 ∧
     signerAccountLookup = "acctDiff.AccountKey" ∧
-    signerInputMatch = "in.PreviousOutPoint == acct.OutPoint" ∧ signerInputLoop = "no-break" ∧
+    signerInputMatch = "acct.OutPoint == in.PreviousOutPoint" ∧ signerInputLoop = "no-break" ∧
     signerVersionGate = "acct.Version >= account.VersionTaprootEnabled" ∧
     signerRawTx = "batch.BatchTX" ∧ signerMuSig2Tx = "batch.BatchTX" ∧
     signerMuSig2PrevOuts = "batch.PreviousOutputs" := by decide
@@ -60,20 +60,20 @@ re-created: state, outpoint `(BatchTX.TxHash(), OutpointIndex)`, batch key + 1, 
 height hint, latest tx.  `stagedRow` is the model of this table. -/
 theorem C05_storer_modifier_shape :
     accountModifierBodies =
-      [("ExpiryModifier", ["account.Expiry = expiry"]),
-       ("HeightHintModifier", ["account.HeightHint = heightHint"]),
+      [("ExpiryModifier", ["account.Expiry = arg"]),
+       ("HeightHintModifier", ["account.HeightHint = arg"]),
        ("IncrementBatchKey", ["account.BatchKey = poolscript.IncrementKey(account.BatchKey)"]),
-       ("LatestTxModifier", ["account.LatestTx = tx"]),
-       ("OutPointModifier", ["account.OutPoint = op"]),
-       ("StateModifier", ["account.State = state"]),
-       ("ValueModifier", ["account.Value = value"]),
-       ("VersionModifier", ["account.Version = version"])] ∧
+       ("LatestTxModifier", ["account.LatestTx = arg"]),
+       ("OutPointModifier", ["account.OutPoint = arg"]),
+       ("StateModifier", ["account.State = arg"]),
+       ("ValueModifier", ["account.Value = arg"]),
+       ("VersionModifier", ["account.Version = arg"])] ∧
     storerRecreatedModifiers =
       ["account.StateModifier(account.StatePendingBatch)",
        "account.OutPointModifier(wire.OutPoint{ Index: uint32(diff.OutpointIndex), Hash: batch.BatchTX.TxHash(), })",
        "account.IncrementBatchKey()"] ∧
     storerRecreatedConditional =
-      [("batch.Version.SupportsAccountExtension() && diff.NewExpiry != 0", ["account.ExpiryModifier(diff.NewExpiry)"]),
+      [("batch.Version.SupportsAccountExtension() && 0 != diff.NewExpiry", ["account.ExpiryModifier(diff.NewExpiry)"]),
        ("batch.Version.SupportsAccountTaprootUpgrade() && diff.NewVersion > acct.Version",
         ["account.VersionModifier(diff.NewVersion)"])] ∧
     storerClosedModifiers = ["account.StateModifier(account.StatePendingClosed)"] ∧
